@@ -15,16 +15,31 @@
 (*     with every argument over the class representatives is applied;      *)
 (*     EditSafe: the content is valid after every operation (an invalid    *)
 (*     candidate is refused and leaves the string unchanged).              *)
+(*     The operations include remove_range, retain, push_bytes and         *)
+(*     Path::add_path_entry.                                               *)
+(*  mode "ctor": every entry point (`via`) of every type is called with    *)
+(*     every argument over the class representatives up to length CtorLen  *)
+(*     (RFileName2 and Str8 have capacities inside that range, NUL is a    *)
+(*     representative: C strings and truncating constructors are covered), *)
+(*     plus the derived constructors.  CtorExact: a constructor either     *)
+(*     refuses (content stays empty) or stores a VALID name that is        *)
+(*     exactly the string the caller handed over - the whole C string, the *)
+(*     whole slice; only the documented *_truncated constructors of the    *)
+(*     plain string may shorten.  ConversionSafe: the infallible           *)
+(*     conversions FileName -> FilePath -> Path, RFileName2 -> FileName    *)
+(*     never produce an invalid value (lemma mode).                        *)
 (* The ASSUME prints the oracle table (class tuple -> accept, per type)    *)
 (* and the byte -> class map consumed by `drv-names enumerate`.            *)
 (***************************************************************************)
 EXTENDS Names, TLC, Json
 
 CONSTANTS MaxLen,    \* lemma mode: all strings up to this length
-          EditLen    \* edit mode: contents up to this length
+          EditLen,   \* edit mode: contents up to this length
+          CtorLen    \* ctor mode: arguments up to this length
 
-VARIABLES mode, ty, s
-vars == <<mode, ty, s>>
+VARIABLES mode, ty, s,
+          src        \* ctor mode: the last constructor call [via, arg, r]
+vars == <<mode, ty, s, src>>
 
 Reps == {Rep(c) : c \in ClassSet}
 RepSeq(t) == [i \in 1..Len(t) |-> Rep(Classes[t[i]])]
@@ -42,32 +57,68 @@ Roots == {<<>>, <<Slash>>, <<Slash, 97>>, <<97, Slash, 97>>, <<Slash, 97, Slash,
 Args1 == {<<b>> : b \in Reps}
 Args2 == {<<a, b>> : a \in {Dot, Slash, 97}, b \in {Dot, Slash, 97}}
 
-Ops == [a : {"push"}, idx : {0}, arg : Args1]
-       \cup [a : {"insert"}, idx : 0..EditLen, arg : Args1]
-       \cup [a : {"remove", "truncate"}, idx : 0..EditLen, arg : {<<>>}]
-       \cup [a : {"pop"}, idx : {0}, arg : {<<>>}]
-       \cup [a : {"strip_prefix", "strip_suffix"}, idx : {0}, arg : Args1 \cup Args2]
+Op(a, idxs, idx2s, args) == [a : a, via : {"new"}, idx : idxs, idx2 : idx2s, arg : args, arg2 : {<<>>}]
+Ops == Op({"push"}, {0}, {0}, Args1 \cup Args2)
+       \cup Op({"insert"}, 0..EditLen, {0}, Args1)
+       \cup Op({"remove", "truncate"}, 0..EditLen, {0}, {<<>>})
+       \cup Op({"remove_range"}, 0..EditLen, 0..EditLen, {<<>>})
+       \cup Op({"retain"}, {0}, {0}, Args1)
+       \cup Op({"pop"}, {0}, {0}, {<<>>})
+       \cup Op({"strip_prefix", "strip_suffix"}, {0}, {0}, Args1 \cup Args2)
+       \cup Op({"add_path_entry"}, {0}, {0}, Args1 \cup Args2)
+
+\* the entry points of the real types (harness/drivers/names/src/ctors.rs lists the same ones)
+Vias(t) ==
+    CASE t \in {"FileName", "Path", "FilePath", "RFileName2"} -> {"new", "from_c_str", "try_from_str", "serde_json"}
+      [] t \in {"ServiceName", "NodeName"} -> {"new", "try_into", "serde_json"}
+      [] t = "Str8" -> {"from_bytes", "try_from_bytes", "try_from_str", "from_str", "from_c_str", "serde_json",
+                        "from_bytes_truncated", "from_str_truncated"}
+SeqsUpTo(n) == UNION {[1..k -> Reps] : k \in 0..n}
+NoSrc == [via |-> "none", arg |-> <<>>, r |-> "none"]
 
 Init ==
-    \/ mode = "lemma" /\ ty = "FileName" /\ s = <<>>
-    \/ mode = "edit" /\ ty \in Types /\ s \in {<<>>, <<97>>} /\ Valid(ty, s)
+    \/ mode = "lemma" /\ ty = "FileName" /\ s = <<>> /\ src = NoSrc
+    \/ mode = "edit" /\ ty \in Types /\ s \in {<<>>, <<97>>} /\ Valid(ty, s) /\ src = NoSrc
+    \/ mode = "ctor" /\ ty \in Types /\ s = <<>> /\ src = NoSrc
 
 Grow ==
     /\ mode = "lemma"
     /\ Len(s) < MaxLen
     /\ \E b \in Reps : s' = Append(s, b)
-    /\ UNCHANGED <<mode, ty>>
+    /\ UNCHANGED <<mode, ty, src>>
 
 Edit ==
     /\ mode = "edit"
     /\ \E op \in Ops :
          /\ op.a \in {"insert", "truncate"} => op.idx <= Len(s)
          /\ op.a = "remove" => op.idx < Len(s)
-         /\ s' = Apply(ty, s, op).s
+         /\ op.a = "remove_range" => op.idx + op.idx2 <= Len(s)
+         /\ op.a = "add_path_entry" => ty = "Path" /\ Valid("Path", op.arg)
+         /\ LET res == Apply(ty, s, op) IN s' \in {res.s} \cup res.alt
     /\ Len(s') <= EditLen
+    /\ UNCHANGED <<mode, ty, src>>
+
+\* one constructor call on a fresh value (the content of a refused construction stays empty)
+Ctor ==
+    /\ mode = "ctor" /\ src = NoSrc
+    /\ \/ \E via \in Vias(ty), arg \in SeqsUpTo(CtorLen) :
+            LET res == Apply(ty, <<>>, [a |-> "new", via |-> via, idx |-> 0, idx2 |-> 0, arg |-> arg, arg2 |-> <<>>]) IN
+            /\ s' = res.s
+            /\ src' = [via |-> via, arg |-> arg, r |-> res.r]
+       \/ /\ ty = "FilePath"
+          /\ \E p \in SeqsUpTo(2), f \in SeqsUpTo(2) :
+               /\ Valid("Path", p) /\ Valid("FileName", f)
+               /\ LET res == Apply(ty, <<>>, [a |-> "from_path_and_file", via |-> "new", idx |-> 0, idx2 |-> 0, arg |-> p, arg2 |-> f]) IN
+                  /\ s' = res.s
+                  /\ src' = [via |-> "from_path_and_file", arg |-> JoinPath(p, f), r |-> res.r]
+       \/ /\ ty = "Path"
+          /\ \E arg \in SeqsUpTo(CtorLen) :
+               LET res == Apply(ty, <<>>, [a |-> "new_normalized", via |-> "new", idx |-> 0, idx2 |-> 0, arg |-> arg, arg2 |-> <<>>]) IN
+               /\ s' = res.s
+               /\ src' = [via |-> "new_normalized", arg |-> arg, r |-> res.r]
     /\ UNCHANGED <<mode, ty>>
 
-Next == Grow \/ Edit
+Next == Grow \/ Edit \/ Ctor
 Spec == Init /\ [][Next]_vars
 
 FileNameNoEscape == (mode = "lemma" /\ ValidFileName(s)) => NoEscape(s)
@@ -88,4 +139,25 @@ FilePathLastIsName ==
         /\ c[Len(c)] # <<>> /\ c[Len(c)] # <<Dot>> /\ c[Len(c)] # <<Dot, Dot>>
 
 EditSafe == mode = "edit" => Valid(ty, s)
+
+\* the infallible conversions between the types never leave the target's rules
+ConversionSafe ==
+    mode = "lemma" =>
+        /\ ValidFileName(s) => ValidFilePath(s) /\ ValidPath(s)
+        \* (the last component may contain '\\', which FilePath allows and FileName::new refuses - it is no separator
+        \*  on the POSIX target; what the property needs is NoEscape)
+        /\ ValidFilePath(s) => ValidPath(s) /\ NoEscape(LastComponent(s)) /\ ValidPath(DirPart(s))
+                               /\ (CharsOk(s, {"bsl"}) => ValidFileName(LastComponent(s)))
+        /\ Valid("RFileName2", s) => ValidFileName(s)
+        /\ ValidPath(s) => ValidPath(Normalize(s)) /\ Len(Normalize(s)) <= Len(s)
+
+\* a constructor refuses, or stores exactly what the caller handed over (and that is valid)
+CtorExact ==
+    (mode = "ctor" /\ src # NoSrc) =>
+        IF src.r = "err" THEN s = <<>>
+        ELSE /\ Valid(ty, s)
+             /\ src.via \in CStrVias => s = UntilNul(src.arg)
+             /\ src.via = "new_normalized" => s = Normalize(src.arg) /\ Valid(ty, src.arg)
+             /\ src.via \notin CStrVias \cup TruncVias \cup {"new_normalized"} => s = src.arg
+             /\ src.via \in TruncVias => HasPrefix(src.arg, s) /\ (Len(s) = Len(src.arg) \/ Len(s) = Cap(ty))
 =============================================================================
